@@ -404,7 +404,12 @@ func (runInfo *runInfoStruct) invokeMemberExpr(expr *ast.MemberExpr) {
 			return
 		}
 		if found {
-			runInfo.rv = runInfo.rv.FieldByIndex(field.Index)
+			var ok bool
+			runInfo.rv, ok = fieldByIndex(runInfo.rv, field.Index)
+			if !ok {
+				runInfo.err = newStringError(expr, "member '"+expr.Name+"' is reached through a nil embedded pointer")
+				runInfo.rv = nilValue
+			}
 			return
 		}
 		if runInfo.rv.CanAddr() {
@@ -434,6 +439,21 @@ func (runInfo *runInfoStruct) invokeMemberExpr(expr *ast.MemberExpr) {
 		runInfo.err = newStringError(expr, "type "+runInfo.rv.Kind().String()+" does not support member operation")
 		runInfo.rv = nilValue
 	}
+}
+
+// fieldByIndex is reflect's FieldByIndex that reports a nil embedded pointer on
+// the way instead of panicking.
+func fieldByIndex(v reflect.Value, index []int) (reflect.Value, bool) {
+	for i, x := range index {
+		if i > 0 && v.Kind() == reflect.Ptr && v.Type().Elem().Kind() == reflect.Struct {
+			if v.IsNil() {
+				return v, false
+			}
+			v = v.Elem()
+		}
+		v = v.Field(x)
+	}
+	return v, true
 }
 
 // invokeItemExpr evaluates an index expression.
